@@ -23,10 +23,15 @@ TRIPLE = "x86_64-unknown-linux-gnu"
 # property -> list of (flavour, argument)
 #   miri: list of case numbers run with `--tier tiny --case N`
 #   tsan / asan / rel: tier name for a complete monitor run
+#   relbin: the dev harness drives the optimised (release) `versatiles` binary — wrapping instead of
+#           trapping arithmetic, no debug assertions: what users actually run
 FLAVOURS = {
     "C01": [("asan", "quick")],
     "C02": [("tsan", "quick")],
     "C04": [("rel", "quick")],
+    "C05": [("relbin", "quick")],
+    "C06": [("relbin", "quick")],
+    "C07": [("relbin", "quick")],
     "C10": [("miri", [0, 1])],
     "C11": [("miri", [0, 2])],
     "C13": [("tsan", "quick")],
@@ -49,9 +54,21 @@ def sh(cmd, env, timeout=None):
     return p.returncode, p.stdout
 
 
+REPO = os.environ.get("VERIF_REPO", "/repo")
+
+
 def build(flavour):
     env = dict(BASE_ENV)
     env["CARGO_TARGET_DIR"] = os.path.join(TARGET, flavour)
+    if flavour == "relbin":
+        cmd = ["cargo", "build", "--offline", "--release", "--manifest-path", os.path.join(REPO, "Cargo.toml"), "-p", "versatiles", "--bin", "versatiles"]
+        rc, out = sh(cmd, env, timeout=3600)
+        if rc != 0:
+            return rc, out, None
+        env2 = dict(BASE_ENV)
+        env2["CARGO_TARGET_DIR"] = os.path.join(TARGET, "dev")
+        rc, out = sh(["cargo", "build", "--offline", "--bin", "vtv"], env2, timeout=3600)
+        return rc, out, os.path.join(TARGET, "dev", "debug", "vtv")
     if flavour == "rel":
         cmd = ["cargo", "build", "--offline", "--release", "--bin", "vtv"]
         exe = os.path.join(env["CARGO_TARGET_DIR"], "release", "vtv")
@@ -78,6 +95,8 @@ def run_monitor_flavour(prop, flavour, tier, seed, logdir):
     evp = os.path.join(logdir, f"evidence_{flavour}.json")
     env["VTV_EVIDENCE_PATH"] = evp
     env["VTV_CHILD_STDERR"] = "1"
+    if flavour == "relbin":
+        env["VTV_VERSATILES_BIN"] = os.path.join(TARGET, "relbin", "release", "versatiles")
     if flavour == "tsan":
         env["TSAN_OPTIONS"] = "halt_on_error=0 report_signal_unsafe=0 exitcode=66"
     if flavour == "asan":
